@@ -291,9 +291,12 @@ func runCase(c tcase) (fails [][2]string, okUpdates int) {
 			err         error
 		}
 		var streams []*stream
+		stalled := false // the next stream opened is one nobody reads from (and nobody cancels)
 		open := func(updatesOnly bool, mask string) {
 			st := &stream{updatesOnly: updatesOnly, mask: mask}
-			streams = append(streams, st)
+			if !stalled {
+				streams = append(streams, st)
+			}
 			req := newOf(t.pull.desc.Input())
 			setStr(req, "name", devName)
 			if mask != "" {
@@ -318,6 +321,9 @@ func runCase(c tcase) (fails [][2]string, okUpdates int) {
 				return
 			}
 			cs.CloseSend()
+			if stalled {
+				return
+			}
 			go func() {
 				for {
 					resp := newOf(t.pull.desc.Output())
@@ -357,6 +363,14 @@ func runCase(c tcase) (fails [][2]string, okUpdates int) {
 		case 4:
 			open(false, "")
 			open(false, c.ReadMsk)
+		case 5:
+			// two streams nobody reads from (a client that went to sleep without hanging up), one of them updates-only,
+			// and a stream that is read: a reader that does not keep up is owed nothing - and costs the writers nothing
+			stalled = true
+			open(false, "")
+			open(true, "")
+			stalled = false
+			open(false, "")
 		}
 		verifrt.WaitIdle()
 		for i, st := range streams {
@@ -609,6 +623,24 @@ func main() {
 				maxLen := 2
 				if s.Thorough {
 					maxLen = 3
+				}
+				// a longer history (eight updates) next to two stalled streams: every stage between the resource and a
+				// sleeping reader holds one event, the ninth thing to do is to wait - or not
+				{
+					c := tcase{Server: si, Noun: t.noun, Streams: 5}
+					for k := 0; k < 8; k++ {
+						c.Updates = append(c.Updates, []int{11, 23}[k%2])
+						c.Masks = append(c.Masks, "")
+					}
+					s.Eval(1)
+					s.Trans(8)
+					fs, ok := runCase(c)
+					if ok >= 0 {
+						for _, f := range fs {
+							s.Fail(fmt.Sprintf("%s %s %s", f[0], se.Name, t.noun), f[1]+fmt.Sprintf(" (updates=%v masks=%v streams=%d: two stalled streams and one that is read)", c.Updates, c.Masks, c.Streams), c)
+						}
+						s.State(fmt.Sprint(se.Name, t.noun, "stalled"))
+					}
 				}
 				for n := 1; n <= maxLen; n++ {
 					for streams := 0; streams <= 4; streams++ {
